@@ -5,7 +5,7 @@ import PgVerif.Proofs.SqlValue
 namespace PgVerif.Proofs.SqlTable
 open PgVerif PgVerif.Export PgVerif.Model.Export PgVerif.Proofs.SqlLex PgVerif.Proofs.SqlCompose PgVerif.Proofs.SqlValue
 open PgVerif.Spec.SqlLex hiding asc
-open PgVerif.Spec.SqlExport (one isWord isOp sepBy)
+open PgVerif.Spec.SqlExport (one isWord isOp sepBy sepBy0)
 
 /-! ### generic combinators -/
 
@@ -62,11 +62,11 @@ theorem reads_join (sep : Bytes) (hsep : Reads anyB sep [.op [44]]) (hs44 : sep.
 
 theorem sepBy_join {α} (item : α → List Tok → Option (List Tok)) (toksOf : α → List Tok)
     (h : ∀ x more, item x (toksOf x ++ more) = some more) :
-    ∀ (xs : List α) (more : List Tok), sepBy item xs (joinToks (xs.map toksOf) ++ more) = some more
-  | [], more => by simp [sepBy, joinToks]
-  | [x], more => by simp only [sepBy, List.map, joinToks]; exact h x more
-  | x :: y :: rest, more => by
-    have h2 := sepBy_join item toksOf h (y :: rest) more
+    ∀ (xs : List α), xs ≠ [] → ∀ (more : List Tok), sepBy item xs (joinToks (xs.map toksOf) ++ more) = some more
+  | [], hne, _ => absurd rfl hne
+  | [x], _, more => by simp only [sepBy, List.map, joinToks]; exact h x more
+  | x :: y :: rest, _, more => by
+    have h2 := sepBy_join item toksOf h (y :: rest) (by simp) more
     simp only [sepBy, List.map, joinToks, List.append_assoc, List.cons_append] at h2 ⊢
     rw [h x]
     simp only [Option.bind_some]
@@ -146,8 +146,14 @@ def rowToks' (F : FloatFmt) (cols : List ColumnInfo) (r : Row) : List Tok :=
 def tableComment (t : TableDump) : Bytes :=
   Export.asc " Table: " ++ commentText t.name ++ (Export.asc " (" ++ decInt t.rowCount ++ Export.asc " rows)")
 
+/-- INSERT INTO name DEFAULT VALUES ; -/
+def defaultRowToks (t : TableDump) : List Tok :=
+  [.word (Export.asc "insert"), .word (Export.asc "into"), identTok t.name, .word (Export.asc "default"),
+   .word (Export.asc "values"), .op [59]]
+
 def insertToks (F : FloatFmt) (t : TableDump) : List Tok :=
   if t.rows.isEmpty then []
+  else if t.columns.isEmpty then t.rows.flatMap fun _ => defaultRowToks t
   else [.word (Export.asc "insert"), .word (Export.asc "into"), identTok t.name, .op [40]] ++
     (joinToks (t.columns.map fun c => [identTok c.name]) ++
       (.op [41] :: .word (Export.asc "values") :: (joinToks (t.rows.map (rowToks' F t.columns)) ++ [.op [59]])))
@@ -334,6 +340,27 @@ theorem reads_insertHead (t : TableDump) (ok : TableOK t) :
   rw [e1, e2, e3]
   simp [List.append_assoc, Function.comp_def]
 
+/-- the same piece once per element of a list -/
+theorem reads_repeat {α} (text : Bytes) (toks : List Tok) (h : Reads anyB text toks) :
+    ∀ xs : List α, Reads anyB (xs.flatMap fun _ => text) (xs.flatMap fun _ => toks)
+  | [] => by simp only [List.flatMap_nil]; exact Reads.nil _
+  | _ :: xs => by
+    have := Reads.seq h (reads_repeat text toks h xs)
+    exact Reads.cast this (by simp) (by simp)
+
+theorem reads_defaultRow (t : TableDump) (hn : t.name ≠ []) :
+    Reads anyB (Export.asc "INSERT INTO " ++ quoteIdent t.name ++ Export.asc " DEFAULT VALUES;\n") (defaultRowToks t) := by
+  have hk := Reads.seq (kw "INSERT" "insert") (kw "INTO" "into")
+  have hi := identSp t.name hn
+  have hvalues := Reads.close (reads_kw (Export.asc "VALUES") (Export.asc "values") (by decide) (by decide) (by decide) (by decide))
+    59 (by intro c hc; simp at hc; subst hc; decide) semi
+  have := Reads.seq hk (Reads.seq hi (Reads.seq (kw "DEFAULT" "default") (Reads.seq hvalues nl)))
+  refine Reads.cast this ?_ (by simp [defaultRowToks])
+  have e1 : Export.asc "INSERT INTO " = Export.asc "INSERT" ++ [32] ++ (Export.asc "INTO" ++ [32]) := by decide
+  have e2 : Export.asc " DEFAULT VALUES;\n" = [32] ++ (Export.asc "DEFAULT" ++ [32] ++ (Export.asc "VALUES" ++ [59] ++ [10])) := by decide
+  rw [e1, e2]
+  simp [List.append_assoc]
+
 /-- TableDump.ToSQL reads as exactly `tableToks`, whatever follows -/
 theorem reads_table (F : FloatFmt) (hS : FloatSqlOK F) (t : TableDump) (ok : TableOK t) :
     Reads anyB (tableToSQL F t) (tableToks F t) := by
@@ -341,18 +368,20 @@ theorem reads_table (F : FloatFmt) (hS : FloatSqlOK F) (t : TableDump) (ok : Tab
   have hcols := reads_columnLines t.columns ok.cols
   have hend : Reads anyB (Export.asc ");\n\n") [.op [41], .op [59]] :=
     Reads.cast (Reads.seq rpar (Reads.seq semi (Reads.seq nl nl))) (by decide) (by simp)
-  have hins : Reads anyB (if t.rows.isEmpty then [] else
-      Export.asc "INSERT INTO " ++ quoteIdent t.name ++ Export.asc " (" ++ joinB [44, 32] (t.columns.map fun c => quoteIdent c.name) ++
-        Export.asc ") VALUES\n" ++ rowLines F t.columns t.rows) (insertToks F t) := by
-    unfold insertToks
+  have hins : Reads anyB (insertText F t) (insertToks F t) := by
+    unfold insertToks insertText
     by_cases he : t.rows.isEmpty = true
     · simp only [he, if_true]; exact Reads.nil _
     · simp only [he, Bool.false_eq_true, if_false]
-      have hne : t.rows ≠ [] := by intro h; simp [h] at he
-      have h1 := reads_insertHead t ok
-      have h2 := reads_rowLines F hS t.columns t.rows
-      rw [rowsToks_eq F t.columns t.rows hne] at h2
-      exact Reads.cast (Reads.seq h1 h2) (by simp [List.append_assoc]) (by simp [List.append_assoc])
+      by_cases hc : t.columns.isEmpty = true
+      · simp only [hc, if_true]
+        exact reads_repeat _ _ (reads_defaultRow t ok.name) t.rows
+      · simp only [hc, Bool.false_eq_true, if_false]
+        have hne : t.rows ≠ [] := by intro h; simp [h] at he
+        have h1 := reads_insertHead t ok
+        have h2 := reads_rowLines F hS t.columns t.rows
+        rw [rowsToks_eq F t.columns t.rows hne] at h2
+        exact Reads.cast (Reads.seq h1 h2) (by simp [List.append_assoc]) (by simp [List.append_assoc])
   have := Reads.seq hhead (Reads.seq hcols (Reads.seq hend hins))
   refine Reads.cast this ?_ (by simp [tableToks, List.append_assoc])
   simp only [tableToSQL, List.append_assoc]
@@ -362,18 +391,40 @@ theorem reads_table (F : FloatFmt) (hS : FloatSqlOK F) (t : TableDump) (ok : Tab
 
 theorem sepBy_join' {α} (item : α → List Tok → Option (List Tok)) (toksOf : α → List Tok) (P : List Tok → Prop)
     (hP44 : ∀ r, P (.op [44] :: r)) :
-    ∀ (xs : List α) (more : List Tok), P more → (∀ x ∈ xs, ∀ m, P m → item x (toksOf x ++ m) = some m) →
+    ∀ (xs : List α), xs ≠ [] → ∀ (more : List Tok), P more → (∀ x ∈ xs, ∀ m, P m → item x (toksOf x ++ m) = some m) →
       sepBy item xs (joinToks (xs.map toksOf) ++ more) = some more
-  | [], more, _, _ => by simp [sepBy, joinToks]
-  | [x], more, hm, h => by simp only [sepBy, List.map, joinToks]; exact h x (by simp) more hm
-  | x :: y :: rest, more, hm, h => by
-    have h2 := sepBy_join' item toksOf P hP44 (y :: rest) more hm (fun z hz => h z (by simp [hz]))
+  | [], hne, _, _, _ => absurd rfl hne
+  | [x], _, more, hm, h => by simp only [sepBy, List.map, joinToks]; exact h x (by simp) more hm
+  | x :: y :: rest, _, more, hm, h => by
+    have h2 := sepBy_join' item toksOf P hP44 (y :: rest) (by simp) more hm (fun z hz => h z (by simp [hz]))
     simp only [sepBy, List.map, joinToks, List.append_assoc, List.cons_append] at h2 ⊢
     rw [h x (by simp) _ (hP44 _)]
     simp only [Option.bind_some]
     rw [one_cons _ _ _ (by simp [isOp])]
     simp only [Option.bind_some]
     exact h2
+
+theorem sepBy0_join' {α} (item : α → List Tok → Option (List Tok)) (toksOf : α → List Tok) (P : List Tok → Prop)
+    (hP44 : ∀ r, P (.op [44] :: r)) (xs : List α) (more : List Tok) (hm : P more)
+    (h : ∀ x ∈ xs, ∀ m, P m → item x (toksOf x ++ m) = some m) :
+    sepBy0 item xs (joinToks (xs.map toksOf) ++ more) = some more := by
+  unfold sepBy0
+  cases xs with
+  | nil => simp [joinToks]
+  | cons x rest =>
+    simp only [List.isEmpty_cons, Bool.false_eq_true, if_false]
+    exact sepBy_join' item toksOf P hP44 (x :: rest) (by simp) more hm h
+
+theorem seqAll_repeat {α} (item : List Tok → Option (List Tok)) (toks : List Tok) (h : ∀ m, item (toks ++ m) = some m) :
+    ∀ (xs : List α) (more : List Tok),
+      Spec.SqlExport.seqAll (fun (_ : α) => item) xs ((xs.flatMap fun _ => toks) ++ more) = some more
+  | [], more => by simp [Spec.SqlExport.seqAll]
+  | _ :: xs, more => by
+    have ih := seqAll_repeat item toks h xs more
+    simp only [Spec.SqlExport.seqAll, List.flatMap_cons, List.append_assoc]
+    rw [h]
+    simp only [Option.bind_some]
+    exact ih
 
 def notWordHead (ts : List Tok) : Prop := ∀ t, ts.head? = some t → isWordTok t = false
 
@@ -406,12 +457,12 @@ theorem cell_cellToks (F : FloatFmt) (hF : ExportJson.FloatOK F) (r : Row) (c : 
       · simp only [List.cons_append, List.nil_append]; exact one_cons _ _ _ (hjson _)
       · exact value_valueToks F hF _ more
 
-theorem rowToks_ok (F : FloatFmt) (hF : ExportJson.FloatOK F) (cols : List ColumnInfo) (r : Row) (more : List Tok) :
+theorem rowToks_ok (F : FloatFmt) (hF : ExportJson.FloatOK F) (cols : List ColumnInfo) (hcols : cols ≠ []) (r : Row) (more : List Tok) :
     Spec.SqlExport.rowToks F cols r (rowToks' F cols r ++ more) = some more := by
   simp only [Spec.SqlExport.rowToks, rowToks', List.cons_append, List.append_assoc]
   rw [one_cons _ _ _ (by simp [isOp])]
   simp only [Option.bind_some]
-  rw [sepBy_join (Spec.SqlExport.cell F r) (cellToks F r) (cell_cellToks F hF r) cols]
+  rw [sepBy_join (Spec.SqlExport.cell F r) (cellToks F r) (cell_cellToks F hF r) cols hcols]
   simp only [Option.bind_some]
   exact one_cons _ _ _ (by simp [isOp])
 
@@ -431,15 +482,27 @@ theorem tableComment_ok (t : TableDump) :
   have := isNameComment_ok (Spec.SqlLex.asc " Table: ") t.name (Spec.SqlLex.asc " (" ++ (decInt t.rowCount ++ Spec.SqlLex.asc " rows)"))
   simpa [tableComment, List.append_assoc, Export.asc, Spec.SqlLex.asc] using this
 
+theorem defaultRow_ok (t : TableDump) (hn : t.name ≠ []) (more : List Tok) :
+    Spec.SqlExport.defaultRow t.name (defaultRowToks t ++ more) = some more := by
+  have hw1 := words_ok ["insert", "into"] (identTok t.name :: .word (Export.asc "default") :: .word (Export.asc "values") :: .op [59] :: more)
+  have hw2 := words_ok ["default", "values"] (.op [59] :: more)
+  simp only [List.map, List.cons_append, List.nil_append] at hw1 hw2
+  unfold Spec.SqlExport.defaultRow defaultRowToks
+  simp only [List.cons_append, List.nil_append, bind, Option.bind_eq_bind]
+  rw [hw1]
+  simp only [Option.bind_some]
+  rw [one_cons _ _ _ (isName_identTok t.name hn)]
+  simp only [Option.bind_some]
+  rw [hw2]
+  simp only [Option.bind_some]
+  exact one_cons _ _ _ (by simp [isOp])
+
 /-- the spec's decoder accepts `tableToks` for the table and consumes exactly them -/
 theorem table_tableToks (F : FloatFmt) (hF : ExportJson.FloatOK F) (t : TableDump) (ok : TableOK t) (more : List Tok) :
     Spec.SqlExport.table F t (tableToks F t ++ more) = some more := by
   have hop44 : ∀ r, notWordHead (.op [44] :: r) := by intro r x hx; simp at hx; subst hx; rfl
   have hwords := words_ok ["create", "table", "if", "not", "exists"]
-  have hcols := sepBy_join' Spec.SqlExport.column colToks notWordHead hop44 t.columns
-  have hnames := sepBy_join' (fun (c : ColumnInfo) => one (Spec.SqlExport.isName c.name)) (fun c => [identTok c.name])
-    (fun _ => True) (fun _ => trivial) t.columns
-  have hrows := sepBy_join (Spec.SqlExport.rowToks F t.columns) (rowToks' F t.columns) (rowToks_ok F hF t.columns) t.rows
+  have hcols := sepBy0_join' Spec.SqlExport.column colToks notWordHead hop44 t.columns
   unfold Spec.SqlExport.table tableToks
   simp only [List.cons_append, List.nil_append, List.append_assoc, bind, Option.bind_eq_bind]
   rw [one_cons _ _ _ (tableComment_ok t)]
@@ -461,26 +524,34 @@ theorem table_tableToks (F : FloatFmt) (hF : ExportJson.FloatOK F) (t : TableDum
   unfold insertToks
   by_cases he : t.rows.isEmpty = true
   · simp [he]
-  · simp only [he, Bool.false_eq_true, if_false, List.cons_append, List.nil_append, List.append_assoc]
-    have hw2 := words_ok ["insert", "into"] (identTok t.name :: .op [40] :: (joinToks (t.columns.map fun c => [identTok c.name]) ++
-      (.op [41] :: .word (Export.asc "values") :: (joinToks (t.rows.map (rowToks' F t.columns)) ++ (.op [59] :: more)))))
-    simp only [List.map, List.cons_append, List.nil_append] at hw2
-    rw [hw2]
-    simp only [Option.bind_some]
-    rw [one_cons _ _ _ (isName_identTok t.name ok.name)]
-    simp only [Option.bind_some]
-    rw [one_cons _ _ _ (by simp [isOp])]
-    simp only [Option.bind_some]
-    rw [hnames _ trivial (fun c hc m _ => by
-      simp only [List.cons_append, List.nil_append]
-      exact one_cons _ _ _ (isName_identTok c.name (ok.cols c hc).1))]
-    simp only [Option.bind_some]
-    rw [one_cons _ _ _ (by simp [isOp])]
-    simp only [Option.bind_some]
-    rw [one_cons _ _ _ (isWord_asc "values")]
-    simp only [Option.bind_some]
-    rw [hrows]
-    simp only [Option.bind_some]
-    exact one_cons _ _ _ (by simp [isOp])
+  · by_cases hc : t.columns.isEmpty = true
+    · simp only [he, hc, Bool.false_eq_true, if_false, if_true]
+      exact seqAll_repeat (Spec.SqlExport.defaultRow t.name) (defaultRowToks t) (defaultRow_ok t ok.name) t.rows more
+    · have hcne : t.columns ≠ [] := by intro h; simp [h] at hc
+      have hrne : t.rows ≠ [] := by intro h; simp [h] at he
+      have hnames := sepBy_join' (fun (c : ColumnInfo) => one (Spec.SqlExport.isName c.name)) (fun c => [identTok c.name])
+        (fun _ => True) (fun _ => trivial) t.columns hcne
+      have hrows := sepBy_join (Spec.SqlExport.rowToks F t.columns) (rowToks' F t.columns) (rowToks_ok F hF t.columns hcne) t.rows hrne
+      simp only [he, hc, Bool.false_eq_true, if_false, List.cons_append, List.nil_append, List.append_assoc]
+      have hw2 := words_ok ["insert", "into"] (identTok t.name :: .op [40] :: (joinToks (t.columns.map fun c => [identTok c.name]) ++
+        (.op [41] :: .word (Export.asc "values") :: (joinToks (t.rows.map (rowToks' F t.columns)) ++ (.op [59] :: more)))))
+      simp only [List.map, List.cons_append, List.nil_append] at hw2
+      rw [hw2]
+      simp only [Option.bind_some]
+      rw [one_cons _ _ _ (isName_identTok t.name ok.name)]
+      simp only [Option.bind_some]
+      rw [one_cons _ _ _ (by simp [isOp])]
+      simp only [Option.bind_some]
+      rw [hnames _ trivial (fun c hc m _ => by
+        simp only [List.cons_append, List.nil_append]
+        exact one_cons _ _ _ (isName_identTok c.name (ok.cols c hc).1))]
+      simp only [Option.bind_some]
+      rw [one_cons _ _ _ (by simp [isOp])]
+      simp only [Option.bind_some]
+      rw [one_cons _ _ _ (isWord_asc "values")]
+      simp only [Option.bind_some]
+      rw [hrows]
+      simp only [Option.bind_some]
+      exact one_cons _ _ _ (by simp [isOp])
 
 end PgVerif.Proofs.SqlTable
